@@ -24,7 +24,7 @@ def _gc_tick():
 ID = "C15"
 RULE = ("exhaustive histories over small universes (mk: 3 keys x 2 values, tuples of length <= 2, "
         "24 assignments + 3 deletions, depth <= 3 (thorough: depth 4, and 3 values x 3 keys depth 4); "
-        "sd: 2 names x 2 strategies incl. attribute / default manipulation, 17 operations, depth <= 3 "
+        "sd: 2 names x 2 strategies incl. attribute / default manipulation, 16 operations, depth <= 3 "
         "(thorough: 4)) plus random histories (length <= 40, 6 keys, 4 values, tuples with "
         "repeats, lookups interleaved) plus a small malformed stream (empty key tuple); a case is "
         "non-trivial when at least one assignment succeeded and the final dict is non-empty or a "
